@@ -404,7 +404,10 @@ fn selector_string(input: Span) -> PResult<String> {
 fn selector_plain_part(input: Span) -> PResult<String> {
     fold_many1(
         verify(take_char, |ch| {
-            ch.is_alphanumeric() || *ch == '-' || *ch == '_'
+            ch.is_alphanumeric()
+                || *ch == '-'
+                || *ch == '_'
+                || !ch.is_ascii()
         }),
         String::new,
         |mut acc, chr: char| {
